@@ -32,7 +32,10 @@ DocIds == {"plain", "colA", "colB", "multi", "fig", "fail", "share2", "share3", 
            \* coloured borders after another colour; a border matrix with the shape of a page; same paper, other margins
            "share1", "sharew2", "sharew3", "brdA", "brdB", "cyc", "pagedm1", "pagedm2",
            \* two documents on one caller-owned RTFPage; the second is multi-section and fails in its second section
-           "pgshare", "pgfail"}
+           "pgshare", "pgfail",
+           \* two documents on one caller-owned RTFSubline; subline_by + page_by with default new_page; group_by on
+           \* different columns with a group continuing over a page break
+           "subA", "subB", "sublpb", "grpA", "grpB"}
 Pal(dd) == CASE dd = "colA" -> {26, 552} [] dd = "colB" -> {100, 300, 652} [] dd = "multi" -> {26, 100}
             [] dd = "fig" -> {552} [] dd = "fail" -> {300} [] dd = "paged" -> {26, 552}
             [] dd = "brdA" -> {552} [] dd = "brdB" -> {26, 552} [] OTHER -> {}
@@ -46,6 +49,8 @@ NCols(dd) == CASE dd \in {"share2", "sharew2"} -> 2 [] dd \in {"share3", "sharew
 Fam(dd) == CASE dd \in {"share1", "share2", "share3"} -> "b" [] dd \in {"sharew2", "sharew3"} -> "w" [] OTHER -> "none"
 Fams == {"b", "w"}
 SharesBody(dd) == Fam(dd) # "none"
+\* documents whose construction is an operation of its own in a history (they are built on a caller-owned component)
+Constructible(dd) == SharesBody(dd) \/ dd \in {"subA", "subB", "pgshare"}
 
 VARIABLES prog, ctx, pc, h, k, cur, res, body, built
 vars == <<prog, ctx, pc, h, k, cur, res, body, built>>
